@@ -88,9 +88,37 @@ Proof. vm_compute. repeat split. Qed.
 
 (* the specification predicates are inhabited, and the utf8 hypothesis has an instance *)
 Example ex_IsPing : IsPing (peer_call (Some ping_name) (Some peer_iface)).
-Proof. split; reflexivity. Qed.
+Proof. split; [reflexivity|split; reflexivity]. Qed.
+Example ex_IsGetMachineId : IsGetMachineId (peer_call (Some get_machine_id_name) (Some peer_iface)).
+Proof. split; [reflexivity|split; reflexivity]. Qed.
+
+(* the same headers on a signal, a method return and an error: not calls, not handled, nothing written,
+   although filter_peer (header only) accepts the header *)
+Definition peer_msg (t : msgtype) (member : str) : msg :=
+  mkMsg t (mkDH (Some peer_iface) (Some member) (Some #"/x") None (Some 77) (Some #":1.9") None None None None) 0 [].
+Example ex_non_calls :
+  handle_peer_message ascii_only ex_env empty_fs (peer_msg MSignal ping_name) = Ok (false, [], empty_fs)
+  /\ handle_peer_message ascii_only ex_env empty_fs (peer_msg MReply ping_name) = Ok (false, [], empty_fs)
+  /\ handle_peer_message ascii_only ex_env empty_fs (peer_msg MError get_machine_id_name) = Ok (false, [], empty_fs)
+  /\ handle_peer_message ascii_only ex_env empty_fs (peer_msg MInvalid get_machine_id_name) = Ok (false, [], empty_fs)
+  /\ filter_peer (m_dh (peer_msg MSignal ping_name)) = true.
+Proof. repeat split. Qed.
+Example ex_signal_not_peer_call : ~ IsPeerCall (peer_msg MSignal ping_name).
+Proof. intros [[H _]|[H _]]; discriminate. Qed.
+
+(* the hypotheses of C20_id_always_32hex are satisfiable in both branches *)
+Example ex_env_absent : match empty_fs machine_id_path with None => e_write_ok ex_env = true | Some c => exists e0, bytes_ok (e_rand e0) /\ c = new_id e0 end.
+Proof. reflexivity. Qed.
+Definition planted_fs : fs := fs_write machine_id_path (new_id ex_env) empty_fs.
+Example ex_env_planted : match planted_fs machine_id_path with None => e_write_ok other_env = true | Some c => exists e0, bytes_ok (e_rand e0) /\ c = new_id e0 end.
+Proof. vm_compute. exists ex_env. split; [apply ex_DrawOK|reflexivity]. Qed.
+Example ex_planted_returned : match get_machine_id ascii_only other_env planted_fs with
+                              | Ok (id, _) => id = #"08070605040302010C020A0966000000"
+                              | _ => False
+                              end.
+Proof. vm_compute. reflexivity. Qed.
 Example ex_not_peer : ~ IsPeerCall (peer_call (Some #"Pong") (Some peer_iface)).
-Proof. intros [[_ H]|[_ H]]; discriminate. Qed.
+Proof. intros [[_ [_ H]]|[_ [_ H]]]; discriminate. Qed.
 Example ex_utf8_instance : forall s, Forall (fun c => c < 128) s -> ascii_only s = true.
 Proof. exact ascii_only_valid. Qed.
 Example ex_MachineId : MachineId #"08070605040302010C020A0966000000".
